@@ -9,7 +9,7 @@ from . import common
 @st.composite
 def cases(draw):
     spec = draw(gen.worlds(max_layers=5, min_layers=1, hooks='any', kinds=gen.ALL_KINDS, max_modules=2,
-                           depth=2, max_tests=4, weights_good=55, layer_decl=80))
+                           depth=2, max_tests=4, weights_good=55, layer_decl=80, sub_skip=True))
     # make sure per-test hooks are common
     for L in spec['layers']:
         if draw(st.integers(0, 99)) < 50:
